@@ -324,6 +324,8 @@ def parse_output(r):
     r.result = None
     r.progress_total = None
     cur = {}
+    opstart = {}
+    r.piece_failed = []
     for line in r.stdout.split("\n"):
         m = PROGRESS.search(line)
         if m and line.startswith("Availability"):
@@ -353,13 +355,17 @@ def parse_output(r):
                     n = int(t[4])
                     segs = [(int(t[5 + 3 * k]), int(t[6 + 3 * k]), int(t[7 + 3 * k])) for k in range(n)]
                     cur[thread] = (t[3], segs)
+                    opstart[thread] = len(r.ops)
                 else:
                     h, segs = cur.pop(thread)
                     r.solves.append((thread, h, segs, t[3]))
+                    # did a file operation of this worker fail while it evaluated this piece?
+                    r.piece_failed.append(any(op[0] == thread and op[4] == "err" for op in r.ops[opstart.get(thread, 0):]))
             elif t[0] == "crash":
                 r.crashed = (int(t[1]), int(t[2]))
     for thread, (h, segs) in sorted(cur.items()):
         r.solves.append((thread, h, segs, "inflight"))      # the run died while this piece was being evaluated
+        r.piece_failed.append(False)
     if r.result is None:
         r.result = "timeout" if r.rc == "timeout" else ("crash" if r.crashed is not None else "abort")
 
@@ -412,6 +418,7 @@ def build_lines(r):
         truth = []
     req += ["G", str(len(truth))] + [x for e, c in truth for x in (str(e), hx(c))]
     req += ["U", str(len(r.solves))] + [outcome for thread, h, segs, outcome in r.solves]
+    req += ["V", str(len(r.piece_failed))] + ["1" if x else "0" for x in r.piece_failed]
     if w.crash is not None:
         req += ["K", str(w.crash[0]), str(w.crash[1])]
     ops = [op for op in r.ops if op[4] != "cut"]
